@@ -36,13 +36,15 @@ func (f *FileEnt) decref() int {
 	f.Lock()
 	f.nref--
 	n := f.nref
+	var children map[string]*FileEnt
+	if n == 0 && f.children != nil { // trigger child deletion
+		children = f.children
+		f.children = nil
+	}
 	f.Unlock()
 
-	if n == 0 && f.children != nil { // trigger child deletion
-		for _, c := range(f.children) {
-			c.decref()
-		}
-		f.children = nil
+	for _, c := range children {
+		c.decref()
 	}
 	return n
 }
@@ -69,12 +71,12 @@ func (f *FileEnt) link_child(name string, c *FileEnt) error {
 // Caller is responsible for calling c.decref *after* this
 // routine returns successfully (error == nil).
 func (f *FileEnt) unlink_child(name string, c *FileEnt) error {
+	f.Lock()
+	defer f.Unlock()
 	if f.children == nil {
 		return errors.New("not a directory.")
 	}
 
-	f.Lock()
-	defer f.Unlock()
 	cur, found := f.children[name]
 	if !found || cur != c {
 		// already unlinked (the name may belong to a newer file by now)
